@@ -1216,3 +1216,20 @@ def _diagnose_c18():
 
 
 PROPS["C18"]["diagnose"] = _diagnose_c18
+
+
+def cmp_c17_autogen(payload, impl, model):
+    """C17 on autogenerated mappings: the three mappings of one type are generated back to back and compared afterwards;
+    generating one (for another atlas) must not change another."""
+    iv, mv = _kv(impl), _kv(model)
+    for m in range(3):
+        k = "m%d" % m
+        if iv.get(k) == "panic":
+            return viol("AutogenerateStructMapEntryUsingTags panicked")
+        a, b = _names_in_order(iv.get(k, "")), _names_in_order(mv.get(k, ""))
+        if sorted(a) == sorted(b) and a != b:
+            return viol("the mapping generated for sort mode %d changed when mappings of the same type were generated for other atlases: %s, expected %s" % (m, a[:20], b[:20]))
+    return None
+
+
+PROPS["C17"]["suites"].append(("autogen-interleaved", dict(cmp=cmp_c17_autogen, what="generated struct families: the mappings of one Go type for three atlases (sort modes) are generated back to back and read afterwards", **_AUTOGEN_COMMON)))
